@@ -2,6 +2,8 @@ import TSSVerif.Model.PsAlgebra
 import TSSVerif.Props.C18
 import TSSVerif.Gen.Ps
 import TSSVerif.Model.PsEquations
+import TSSVerif.Gen.Stmts
+import TSSVerif.Model.StmtsExpected
 /-!
 # C08 — threshold blind PS signatures are complete
 
@@ -194,6 +196,13 @@ theorem equations_as_modelled :
     TSSVerif.Gen.Ps.checkCommitmentForm = TSSVerif.Model.PsEq.checkCommitmentForm ∧
     TSSVerif.Gen.Ps.verifySigPoK = TSSVerif.Model.PsEq.verifySigPoK ∧ TSSVerif.Gen.Ps.localKeyGen = TSSVerif.Model.PsEq.localKeyGen ∧
     TSSVerif.Gen.Ps.proveKnowledge = TSSVerif.Model.PsEq.proveKnowledge ∧ TSSVerif.Gen.Ps.proverUnBlind = TSSVerif.Model.PsEq.proverUnBlind := by
+  decide +kernel
+
+/-- **The key generation this property's flows start from is the one modelled** (`Model/Dkg`, shared with C01/C05): the
+statements of the PS backend's `OnMsg`, `KeyGen`, its three wait loops and its commit / reveal / validation functions,
+regenerated from `/repo` on this run, are the committed ones. (The property quantifies over DKG delivery schedules: a
+change in how arriving shares, commitments and keys are recorded is a change to what it is about.) -/
+theorem source_as_modelled : TSSVerif.Gen.Stmts.dkgps = TSSVerif.Model.StmtsExpected.dkgps := by
   decide +kernel
 
 end TSSVerif.Props.C08
